@@ -21,9 +21,17 @@ import (
 // introduces names in a fixed order; the permutations are applied here) and
 // which client API performs the handshakes.
 type Variant07 struct {
-	SwapTags  bool   `json:"swapTags"`
-	SwapAddrs bool   `json:"swapAddrs"`
-	SwapCmds  bool   `json:"swapCmds"`
+	SwapTags  bool `json:"swapTags"`
+	SwapAddrs bool `json:"swapAddrs"`
+	SwapCmds  bool `json:"swapCmds"`
+	// AddrShape: how the two model servers are named. The statement's "same server
+	// address" is the address the caller names, so two sinful strings that differ
+	// only in their query part are two servers (e.g. two daemons behind one shared
+	// port): "plain" = different host:port; "sock" = same host:port, different
+	// ?sock= name; "ccbid" = same host:port, different CCBID parameter; "param" =
+	// same host:port, different custom parameter. Non-plain shapes use the in-memory
+	// ClientHandshake binding (each name is wired to its own real server).
+	AddrShape string `json:"addrShape,omitempty"`
 	API       string `json:"api"` // "handshake": Authenticator.ClientHandshake over an in-memory connection; "connect": client.ConnectAndAuthenticateWithConfig over TCP loopback
 }
 
@@ -80,11 +88,27 @@ func (w *World07) tagOf(t string) string  { return swap(t, "A", "B", w.v.SwapTag
 func (w *World07) addrOf(a string) string { return swap(a, "s1", "s2", w.v.SwapAddrs) }
 func (w *World07) cmdOf(c string) string  { return swap(c, "c1", "c2", w.v.SwapCmds) }
 
+// shapedAddr is the address string the client is given for model server k (0, 1).
+func shapedAddr(shape string, k int) string {
+	switch shape {
+	case "sock":
+		return fmt.Sprintf("<10.7.0.9:9618?sock=%s>", []string{"schedd_1801_a3f2", "startd_1802_77c1"}[k])
+	case "ccbid":
+		return fmt.Sprintf("<10.7.0.9:9618?CCBID=10.7.0.3:9618%%23%d&noUDP>", 101+k)
+	case "param":
+		return fmt.Sprintf("<10.7.0.9:9618?x=%d>", k+1)
+	}
+	return fmt.Sprintf("10.7.0.%d:9618", k+1)
+}
+
 func NewWorld07(v Variant07) (*World07, error) {
+	if v.AddrShape != "" && v.AddrShape != "plain" {
+		v.API = "handshake"
+	}
 	w := &World07{v: v, srv: map[string]*Server{}, cc: security.NewSessionCache(), sess: map[int]*est07{}, tcp: v.API == "connect"}
 	w.tcpCh = make(chan *ConnLog, 16)
 	for k, name := range []string{"s1", "s2"} {
-		addr := fmt.Sprintf("10.7.0.%d:9618", k+1)
+		addr := shapedAddr(v.AddrShape, k)
 		if w.tcp {
 			ln, err := net.Listen("tcp", "127.0.0.1:0")
 			if err != nil {
@@ -199,6 +223,9 @@ func (w *World07) sig(st *Step, inv, obs string, ridden *est07, tag, addr, cmd s
 	m := map[string]string{"spec": "SessionCache", "inv": inv, "obs": obs, "action": st.Act}
 	if st.Act == "Handshake" {
 		m["action"] = "ClientHandshake"
+	}
+	if w.v.AddrShape != "" && w.v.AddrShape != "plain" {
+		m["addrShape"] = w.v.AddrShape
 	}
 	if ridden == nil {
 		m["rel"] = "unknown-session"
